@@ -371,8 +371,6 @@ theorem queryOps_eq (m : MethodSpec) (c : Cooked)
       simp only [aliasLookup] at this
       simp only [Expr.text]
       congr 1
-      rw [← this]
-      cases lastOfKey m.alias p.name <;> rfl
   | struct fs =>
     simp only [paramExprs, specParamOps, hk, List.map_map]
     apply List.map_congr_left
